@@ -15,7 +15,7 @@ SC = 16
 SOLVERS = {"LU": LinearSolverType.LU, "GMRES": LinearSolverType.GMRES, "MINRES": LinearSolverType.MINRES}
 
 
-def observe(A, b, trans, solver, guess, fmt):
+def observe(A, b, trans, solver, guess, fmt, rdtype=float):
     M = sps.coo_matrix(np.array(A, dtype=float)).asformat(fmt)
     sym = bool((np.array(A) == np.array(A).T).all())
     o = {"raised": "none", "stage": "none", "finite": True, "big": False, "X": [0] * len(A)}
@@ -27,7 +27,7 @@ def observe(A, b, trans, solver, guess, fmt):
     except Exception as e:  # noqa
         o.update(raised=type(e).__name__, stage="construct")
         return o
-    rhs = np.array(b, dtype=float)
+    rhs = np.array(b, dtype=rdtype)      # "all right-hand sides": integer and single-precision arrays included
     kw = {}
     if guess != "none":
         Ae = np.array(A, dtype=float).T if trans else np.array(A, dtype=float)
@@ -147,7 +147,7 @@ def main():
                         guesses = ("none", "zero", "exact") if (chk.thorough or si % 3 == 0) else (("none", "exact")[si % 2],)
                         for guess in guesses:
                             c = {"A": A, "b": b, "trans": trans, "solver": solver, "guess": guess}
-                            o = observe(A, b, trans, solver, guess, fmts[(si + len(recs)) % 3])
+                            o = observe(A, b, trans, solver, guess, fmts[(si + len(recs)) % 3], (float, np.int64, np.float32, float)[(si + len(recs) // 3) % 4])
                             recs.append({"c": c, "o": o})
                             chk.case((si, tuple(b), solver, trans, guess))
         d = tempfile.mkdtemp(prefix="gf_ls_")
